@@ -1,5 +1,5 @@
-(* Printing an integer in base 16 or 2 with the radix prefix and reading the text back; the
-   printer's forms that do not read back (octal, no prefix). *)
+(* Printing an integer in base 2, 8 or 16 with the radix prefix and reading the text back; the
+   printer's form that does not read back (no prefix). *)
 From Xeh Require Import Model.Prelude Model.Bits Model.Cell Model.Lexer Model.Fmt.
 From Xeh Require Import Proofs.LexLoc Proofs.LexBasic Proofs.LexNext Proofs.LexNum Proofs.LexAll Proofs.LexPrintInt
   Proofs.LexStr Proofs.LexMoreNum.
@@ -58,60 +58,91 @@ Qed.
 
 Lemma pow2_130 : (two127 < 2 ^ Z.of_nat 130)%Z.
 Proof. vm_compute. reflexivity. Qed.
-Lemma pow16_130 : (two127 < 16 ^ Z.of_nat 130)%Z.
-Proof. vm_compute. reflexivity. Qed.
 
-(* a non-negative integer printed in base 16 (either case) or 2 with the prefix reads back *)
-Lemma print_read_int_radix : forall f z,
-  (fl_base f = 16 \/ fl_base f = 2)%Z -> fl_prefix f = true -> (0 <= z)%Z -> in_i128 z = true ->
-  let txt := fmt_int f z in
-  lex_string txt = [(TLit (CInt z), 0, String.length txt); (TEnd, String.length txt, String.length txt)].
+(* the marker, base and digit case the printer uses for a flags word *)
+Definition fmt_mark (f : Z) : option rmark :=
+  if (fl_base f =? 2)%Z then Some RBin
+  else if (fl_base f =? 8)%Z then Some ROct
+  else if (fl_base f =? 16)%Z then Some RHex else None.
+
+Lemma fmt_int_marked f z m : fmt_mark f = Some m -> fl_prefix f = true ->
+  fmt_int f z = "0" ++ rmark_text m ++
+                digits (Z.of_N (rmark_radix m)) (match m with RHex => fl_upcase f | _ => false end) (z mod two128).
 Proof.
-  intros f z Hbase Hp Hz Hi txt. pose proof (in_i128_bounds z Hi) as Hb.
+  unfold fmt_mark, fmt_int. intros Hm Hp. rewrite Hp.
+  destruct (fl_base f =? 2)%Z; [injection Hm as <-; reflexivity|].
+  destruct (fl_base f =? 8)%Z; [injection Hm as <-; reflexivity|].
+  destruct (fl_base f =? 16)%Z; [injection Hm as <-; reflexivity|discriminate].
+Qed.
+
+(* a non-negative integer printed in base 2, 8 or 16 (either case) with the prefix reads back:
+   any lexer state, any continuation that starts with whitespace or is empty *)
+Lemma print_read_int_radix_next : forall l f z rest,
+  (fl_base f = 2 \/ fl_base f = 8 \/ fl_base f = 16)%Z -> fl_prefix f = true -> (0 <= z)%Z -> in_i128 z = true ->
+  next_is_ws_or_end rest = true ->
+  lrest l = fmt_int f z ++ rest ->
+  let p' := lpos l + String.length (fmt_int f z) in
+  lex_next l = (TLit (CInt z), mklex rest p' (lpos l) (llen l)).
+Proof.
+  intros l f z rest Hbase Hp Hz Hi Hr Hl p'. pose proof (in_i128_bounds z Hi) as Hb.
   assert (P128 : (two128 = 2 * two127)%Z) by (vm_compute; reflexivity).
   assert (Hmod : (z mod two128 = z)%Z) by (apply Z.mod_small; lia).
-  pose proof pow2_130. pose proof pow16_130.
-  set (hex := (fl_base f =? 16)%Z).
-  set (base := if hex then 16%Z else 2%Z).
-  set (up := if hex then fl_upcase f else false).
-  assert (Et : txt = "0" ++ (if hex then "x" else "b") ++ digits base up z).
-  { subst txt hex base up. unfold fmt_int. rewrite Hp, Hmod. destruct Hbase as [E|E]; rewrite E; reflexivity. }
-  assert (Hbr : (2 <= base <= 36)%Z) by (subst base; destruct hex; lia).
-  assert (Hzr : (0 <= z < base ^ Z.of_nat 130)%Z) by (subst base; destruct hex; lia).
+  pose proof pow2_130 as P2.
+  assert (Hm : exists m, fmt_mark f = Some m).
+  { unfold fmt_mark. destruct Hbase as [E|[E|E]]; rewrite E; eexists; reflexivity. }
+  destruct Hm as [m Hm].
+  set (base := Z.of_N (rmark_radix m)).
+  set (up := match m with RHex => fl_upcase f | _ => false end).
+  assert (Et : fmt_int f z = "0" ++ rmark_text m ++ digits base up z).
+  { rewrite (fmt_int_marked f z m Hm Hp), Hmod. reflexivity. }
+  assert (Hbr : (2 <= base <= 36)%Z) by (subst base; destruct m; cbn [rmark_radix]; lia).
+  assert (Hpow : (2 ^ Z.of_nat 130 <= base ^ Z.of_nat 130)%Z).
+  { apply Z.pow_le_mono_l. lia. }
+  assert (Hzr : (0 <= z < base ^ Z.of_nat 130)%Z) by lia.
   destruct (digits_go_base base up Hbr 130 z "" Hzr ltac:(lia)) as (ds & E1 & E2 & E3 & E4).
   fold (digits base up z) in E1. rewrite app_nil_r_s in E1.
   set (items := map (NDig up) ds) in *.
-  set (radix := if hex then 16%N else 2%N).
-  assert (Er : Z.to_N base = radix) by (subst base radix; destruct hex; reflexivity).
+  set (radix := rmark_radix m).
+  assert (Er : Z.to_N base = radix) by (subst base radix; apply N2Z.id).
   assert (Hok : forallb (nitem_ok radix) items = true) by (apply nitems_ok_map; rewrite <- Er; exact E2).
-  assert (Hl : lrest (lex_new txt) = sgn_text SNone ++ "0" ++ (if hex then "x" else "b") ++ nitems_text items ++ "").
-  { cbn [lex_new lrest sgn_text append]. rewrite app_nil_r_s, <- E1. exact Et. }
-  pose proof (lex_next_int_marked (lex_new txt) SNone hex items "" Hok eq_refl Hl) as Hn.
+  assert (Hl' : lrest l = sgn_text SNone ++ "0" ++ rmark_text m ++ nitems_text items ++ rest).
+  { rewrite Hl, Et, E1. cbn [sgn_text append]. rewrite app_assoc_s. reflexivity. }
+  pose proof (lex_next_int_marked l SNone m items rest Hok Hr Hl') as Hn.
   cbv zeta in Hn. fold radix in Hn.
-  assert (Elen : String.length txt = 2 + List.length items).
-  { rewrite Et, E1. rewrite !app_length_s, nitems_text_length. destruct hex; reflexivity. }
-  assert (Etok : int_tok SNone radix items 0 (String.length txt) = TLit (CInt z)).
-  { unfold int_tok. subst items. rewrite nitems_digits_map.
+  assert (Elen : String.length (fmt_int f z) = 2 + List.length items).
+  { rewrite Et, E1. rewrite !app_length_s, nitems_text_length. destruct m; reflexivity. }
+  assert (Etok : forall a b, int_tok SNone radix items a b = TLit (CInt z)).
+  { intros a b. unfold int_tok. subst items. rewrite nitems_digits_map.
     destruct ds as [|d0 ds']; [congruence|]. cbv zeta. cbn [sgn_apply].
     assert (Ev : digits_value (Z.of_N radix) (d0 :: ds') 0 = z).
-    { replace (Z.of_N radix) with base by (subst base radix; destruct hex; reflexivity). rewrite E4. lia. }
+    { fold base. rewrite E4. lia. }
     rewrite Ev, Hi. reflexivity. }
-  apply lex_string_one_literal.
-  - rewrite Et. discriminate.
-  - rewrite Hn.
-    change (lpos (lex_new txt) + String.length (sgn_text SNone) + 2 + List.length items) with (2 + List.length items).
-    rewrite <- Elen. change (lpos (lex_new txt)) with 0. change (llen (lex_new txt)) with (String.length txt).
-    rewrite Etok. reflexivity.
+  rewrite Hn, Etok. subst p'. rewrite Elen. cbn [sgn_text String.length].
+  replace (lpos l + 0 + 2 + List.length items) with (lpos l + (2 + List.length items)) by lia. reflexivity.
 Qed.
 
-(* FINDINGS: printer forms that do not read back *)
+(* the whole-text form *)
+Lemma print_read_int_radix : forall f z,
+  (fl_base f = 2 \/ fl_base f = 8 \/ fl_base f = 16)%Z -> fl_prefix f = true -> (0 <= z)%Z -> in_i128 z = true ->
+  let txt := fmt_int f z in
+  lex_string txt = [(TLit (CInt z), 0, String.length txt); (TEnd, String.length txt, String.length txt)].
+Proof.
+  intros f z Hbase Hp Hz Hi txt.
+  assert (Hl : lrest (lex_new txt) = fmt_int f z ++ "") by (cbn [lex_new lrest]; rewrite app_nil_r_s; reflexivity).
+  pose proof (print_read_int_radix_next (lex_new txt) f z "" Hbase Hp Hz Hi eq_refl Hl) as Hn. cbv zeta in Hn.
+  apply lex_string_one_literal.
+  - intros E. subst txt. rewrite E in Hn. vm_compute in Hn. discriminate Hn.
+  - rewrite Hn. reflexivity.
+Qed.
 
-(* base 8 prints the prefix 0o, which the lexer does not know *)
-Lemma print_octal_refuted :
-  exists z, in_i128 z = true /\ (0 <= z)%Z /\
-    let txt := fmt_int (fl_set_base fmt_default 8) z in
-    txt = "0o10" /\ lex_string txt = [(TErr PInt 0 4, 0, 4)].
-Proof. exists 8%Z. vm_compute. repeat split; reflexivity || discriminate. Qed.
+(* the octal prefix reads (it did not before the lexer learned 0o) *)
+Lemma print_octal_reads :
+  fmt_int (fl_set_base fmt_default 8) 8 = "0o10" /\
+  lex_string "0o10" = [(TLit (CInt 8), 0, 4); (TEnd, 4, 4)] /\
+  lex_string "-0o1_7" = [(TLit (CInt (-15)), 0, 6); (TEnd, 6, 6)] /\
+  lex_string "0O17" = [(TErr PInt 0 4, 0, 4)] /\
+  lex_string "0o8" = [(TErr PInt 0 3, 0, 3)].
+Proof. vm_compute. repeat split; reflexivity. Qed.
 
 (* without the prefix a hexadecimal or binary text reads as a different number, or not at all *)
 Lemma print_noprefix_refuted :
